@@ -69,12 +69,12 @@ def shards(tier, seed):
                  "fault_rounds": 1 if 1 <= i <= 3 else 0,
                  "late": [12.5] if i in (4, 5) else [],
                  "slowsend_rounds": 1 if i in (5, 6, 7) else 0,
-                 "uihb_tail": [7.5] if i == 2 else []} for i in range(8)]
+                 "uihb_tail": [12.5] if i == 2 else []} for i in range(8)]
     slow = {0: [6.5], 1: [12.0], 2: [32.0], 3: [62.0], 4: [125.0]}
     return [{"seed": seed * 100 + i, "rounds": 60, "max_clients": 16, "per_client": 4,
              "slow": slow.get(i, []), "fault_rounds": 6 if i >= 5 else 0,
              "late": [10.5, 12.5, 30.0, 61.0] if i >= 5 else [],
-             "slowsend_rounds": 3, "uihb_tail": [7.5, 12.0] if i < 5 else []}
+             "slowsend_rounds": 3, "uihb_tail": [12.5, 21.0] if i < 5 else []}
             for i in range(16)]
 
 
@@ -219,6 +219,8 @@ def run_round(acc, spec, rnd, rng, slow=None, fault=None, late=None, slowsend=Fa
                     "message": b"HSM:UI:HB:" + bytes(40), "tweak": bytes(32),
                     "pubkey": bytes(65)}
         dev.cfg["hb_back_mode"] = 0x04
+        # ... and, before that, an advance that ends in partial success (left unfinished)
+        dev.adv_policy = dict(dev.adv_policy, final="partial")
         fault = fault or {"tolerate_only": True}
     slow = slow or (0.001 if late else None)
     nclients = rng.randint(2, spec["max_clients"]) if not slow else 3
@@ -303,7 +305,8 @@ def run_round(acc, spec, rnd, rng, slow=None, fault=None, late=None, slowsend=Fa
                                                    "pubkey")]
                 plan[c] = [steady[(c + j) % len(steady)] for j in range(int(uihb_tail / 0.25))]
                 if c == 0:
-                    plan[c] = [("uihb", lambda: {"command": "uiHeartbeat", "version": 5,
+                    plan[c] = [("advance", byname["advance"]),
+                               ("uihb", lambda: {"command": "uiHeartbeat", "version": 5,
                                                  "udValue": "33" * 32})] + plan[c]
         barrier = threading.Barrier(nclients)
         ssrng = random.Random(rng.getrandbits(32))
